@@ -44,6 +44,10 @@ def tv_plans(tier, rng):
     # too large for the 16 bit length: must be refused, nothing written (small count: payloads are logged)
     for layer, n in (("tpkt", 65532), ("tpkt", 65535), ("x224", 65529), ("x224", 65536), ("tpkt", 65531), ("x224", 65528), ("link", 66000)):
         plans.append({"id": "big-%s-%d" % (layer, n), "mode": "write", "layer": layer, "writes": [{"len": n, "salt": 1, "cap": 4096}]})
+    # shutdown() between two writes (on a clear-text stream it does nothing): what is handed over afterwards is emitted or refused
+    for layer in LAYERS:
+        for n in (0, 5, 300):
+            plans.append({"id": "after-shutdown-%s-%d" % (layer, n), "mode": "write", "layer": layer, "writes": [{"len": 4, "salt": 1}, {"shutdown": True}, {"len": n, "salt": 2}, {"len": n + 1, "salt": 3, "cap": 2}]})
     plans.append({"id": "selftest", "mode": "write", "layer": "tpkt", "writes": [{"payload": [1, 2, 3, 4, 5], "cap": 2}, {"payload": [9], "failat": 2}]})
     return plans
 
